@@ -311,6 +311,9 @@ func (g *qeGen) leaf(table string) string {
 		if r.chance(1, 40) {
 			val = vPick(r, []string{"abc", "1.2.3", "--1", "1x"})
 		}
+		if r.chance(1, 12) {
+			val = "" // no value at all: not the number 0
+		}
 		if isRegexOp {
 			val = vPick(r, []string{"^1", "0$", "[0-9]+", "1", "^" + val + "$", val})
 		}
@@ -438,6 +441,43 @@ func (g *qeGen) cutoffRequest(table string) string {
 	if g.pCutoff > 0 && r.chance(1, 2) {
 		shape = 5 // cluster: the whole table, every node has to merge all its backends before it cuts
 	}
+	authUser := ""
+	if g.pAuth > 0 && r.chance(1, 3) {
+		// a contact who does not see every row, no filter: rows behind the cut-off still have to be
+		// authorised one by one for total_count
+		shape = 5
+		authUser = vPick(r, qeContacts)
+		// prefer the contact who sees most (not all) rows of some backend: rows behind the cut-off to authorise
+		best := 0
+		for _, bk := range g.ds.Backends {
+			tab := bk.table(table)
+			if tab == nil {
+				continue
+			}
+			ci := -1
+			for i, c := range tab.Cols {
+				if c == "contacts" {
+					ci = i
+				}
+			}
+			if ci < 0 {
+				continue
+			}
+			count := map[string]int{}
+			for _, row := range tab.Rows {
+				if l, ok := row[ci].([]string); ok {
+					for _, c := range l {
+						count[c]++
+					}
+				}
+			}
+			for _, c := range qeContacts {
+				if count[c] > best && count[c] < len(tab.Rows) {
+					best, authUser = count[c], c
+				}
+			}
+		}
+	}
 	switch shape {
 	case 5:
 	case 6:
@@ -476,9 +516,17 @@ func (g *qeGen) cutoffRequest(table string) string {
 			lines = append(lines, "Sort: host_name asc", "Sort: description asc")
 		}
 	}
-	lines = append(lines, fmt.Sprintf("Limit: %d", vPick(r, []int{1, 1, 2, 3, 4})))
-	if r.chance(1, 3) {
-		lines = append(lines, fmt.Sprintf("Offset: %d", vPick(r, []int{1, 2, 3})))
+	if authUser != "" {
+		// a contact sees few rows: the smallest window leaves the most rows behind the cut-off
+		lines = append(lines, "Limit: 1")
+	} else {
+		lines = append(lines, fmt.Sprintf("Limit: %d", vPick(r, []int{1, 1, 2, 3, 4})))
+		if r.chance(1, 3) {
+			lines = append(lines, fmt.Sprintf("Offset: %d", vPick(r, []int{1, 2, 3})))
+		}
+	}
+	if authUser != "" {
+		lines = append(lines, "AuthUser: "+authUser)
 	}
 	lines = append(lines, "OutputFormat: "+vPick(r, []string{"json", "wrapped_json"}))
 
